@@ -56,7 +56,7 @@ def gen_filter(R, depth):
     return fam, sorted(acc)
 
 
-def gen_pyramid(R, maxdepth=4, kinds=("generic", "toast", "filtered", "filtered", "bbox"), mindepth=0, sub_p=0.5):
+def gen_pyramid(R, maxdepth=4, kinds=("generic", "toast", "filtered", "filtered", "bbox"), mindepth=0, sub_p=0.5, redepth_p=0.0):
     kind = R.choice(kinds)
     depth = R.randrange(mindepth, maxdepth + 1)
     spec = dict(kind=kind, depth=depth, apex=None, accepted=None, coordsys=R.choice(["astronomical", "planetary"]))
@@ -80,6 +80,8 @@ def gen_pyramid(R, maxdepth=4, kinds=("generic", "toast", "filtered", "filtered"
             else:
                 a = (n, R.randrange(1 << n), R.randrange(1 << n))
             spec["apex"] = list(a)
+    if redepth_p and R.random() < redepth_p:
+        spec["redepth"] = R.choice([d for d in range(0, maxdepth + 2) if d != depth])
     return spec
 
 
@@ -155,6 +157,17 @@ def build_pyramid(spec):
     from toasty.pyramid import Pos, Pyramid
 
     k = spec["kind"]
+    if spec.get("redepth") is not None and spec["redepth"] != spec["depth"]:
+        # the object is created and USED at another depth first (counted, its leaves visited), then its documented `depth`
+        # attribute ("may be changed") is set to the depth of this case
+        pyr = build_pyramid(dict(spec, depth=spec["redepth"], redepth=None, apex=None))
+        pyr.count_leaf_tiles()
+        pyr.count_live_tiles()
+        pyr.visit_leaves(lambda p, t: None, parallel=1)
+        pyr.depth = spec["depth"]
+        if spec.get("apex"):
+            pyr.subpyramid(Pos(*spec["apex"]))
+        return pyr
     if k == "generic":
         pyr = Pyramid.new_generic(spec["depth"])
     elif k == "toast":
